@@ -125,6 +125,7 @@ def _same_val(a, b):
 
 
 HAVOC_SHAPES = {}
+HBUDGET = int(os.environ.get("PYVC_HOUDINI_BUDGET", "8000"))
 
 
 def havoc_value(ex, st, name, cur, declared, peek=None):
@@ -221,8 +222,7 @@ def run_loop(ex, s, st, kind, itv):
     n_oblig = len(ex.obligs)
     saved_ord = ex.loop_ordinal
     saved_hooks = (ex.yield_hook, ex.point_hook)
-    ex.yield_hook = (lambda *a: None) if ex.yield_hook else None
-    ex.point_hook = None
+    # hooks keep running during the probe (their ghost updates matter); obligations emitted there are discarded below
     try:
         idx0 = iv(0)
         for (b_st, b_out) in _one_iteration(ex, s, probe, kind, it, idx0, probe_mode=True):
@@ -457,10 +457,17 @@ def run_loop(ex, s, st, kind, itv):
                     if hg is not None and kind != "for" and hg.eq(g):
                         continue        # same formula as assumed at the head: trivially preserved
                     goals.append((nm, g))
-                if goals and not entails(b_st.pc, And(*[g for _, g in goals]), 8000):
+                if goals and not entails(b_st.pc, And(*[g for _, g in goals]), HBUDGET):
                     for (nm, g) in goals:
-                        if not entails(b_st.pc, g, 8000):
+                        if not entails(b_st.pc, g, HBUDGET):
                             failed.add(nm)
+                            if os.environ.get("PYVC_DEBUG_CAND") == nm:
+                                r, sv = check_sat(list(b_st.pc) + [Not(g)], 20000)
+                                print("   [cand %s] not preserved: %s" % (nm, r))
+                                if r == "sat":
+                                    m = sv.model()
+                                    print("    ", {d.name(): m[d] for d in m.decls() if d.arity() == 0 and not z3.is_array(m[d]) and "?" not in d.name()})
+                                print("    goal:", str(g)[:800])
         if shape_problem is not None and os.environ.get("PYVC_DEBUG"):
             print("  [loop %d %s] shape problem: %s; active=%s dropped=%s" % (ordinal, anchor, shape_problem, [a for a, _ in active], dropped))
         if shape_problem is not None:
@@ -480,6 +487,8 @@ def run_loop(ex, s, st, kind, itv):
             continue
         break
 
+    if os.environ.get("PYVC_DEBUG"):
+        print("  [loop %d %s] kept=%s dropped=%s" % (ordinal, anchor, [a for a, _ in active if not a.startswith("auto:")], [(a, w) for a, w in dropped if not a.startswith("auto:")]))
     ex.loop_report.append({"loop": ordinal, "anchor": anchor, "kept": [a for a, _ in active],
                            "dropped": [(a, why) for (a, why) in dropped if not a.startswith("auto:")],
                            "case": ex.cur_case})
